@@ -40,3 +40,39 @@ theorem bishop_mask_src : Tr.bishopMaskInitAvail = true →
   decide +kernel
 
 end RCE.Proofs.TranslatedChk
+
+namespace RCE.Proofs.TranslatedChk
+open RCE RCE.Gen
+
+private theorem fileA_val : fileA = (0x0101010101010101 : UInt64) := by decide +kernel
+private theorem fileH_val : fileH = (0x8080808080808080 : UInt64) := by decide +kernel
+private theorem rank1_val : rank1 = (0x00000000000000ff : UInt64) := by decide +kernel
+private theorem rank8_val : rank8 = (0xff00000000000000 : UInt64) := by decide +kernel
+
+/-- `Bitboard::shift_east` as translated equals the model's, for every board and every count -/
+theorem shiftEast_src (ha : Tr.shiftEastAvail = true) (b : BB) (n : Nat) : Tr.shiftEast b n = shiftEast b n := by
+  first
+  | exact absurd ha (by decide)
+  | (induction n generalizing b with
+     | zero => rfl
+     | succ n ih =>
+       show Tr.shiftEast _ n = shiftEast _ n
+       rw [ih]
+       try (congr 1 <;> simp [shlChecked, fileA_val]))
+
+theorem shiftWest_src (ha : Tr.shiftWestAvail = true) (b : BB) (n : Nat) : Tr.shiftWest b n = shiftWest b n := by
+  first
+  | exact absurd ha (by decide)
+  | (induction n generalizing b with
+     | zero => rfl
+     | succ n ih =>
+       show Tr.shiftWest _ n = shiftWest _ n
+       rw [ih]
+       try (congr 1 <;> simp [shr, fileH_val]))
+
+theorem trimEdges_src (_ha : Tr.trimEdgesAvail = true) (b : BB) : Tr.trimEdges b = trimEdges b := by
+  first
+  | rfl
+  | (simp only [Tr.trimEdges, trimEdges, rank1_val, rank8_val, fileA_val, fileH_val])
+
+end RCE.Proofs.TranslatedChk
